@@ -47,14 +47,15 @@ PROPS['C12'] = dict(
          'solve: cell k of the 576-cell cross product {aggregation, smoothed_aggregation} x 9 relaxations x 8 Krylov solvers x {skyline_lu, eigen_splu} x {no repartition, merge} is (offset(ranks, seed) + 115 k) mod 576, tol 1e-8, maxiter 300 (1000 Richardson); 20 % of the calls are budget-limited (maxiter 3-9, no convergence clause), 20 % start from x0 != 0, 25 % of the eligible solvers use left preconditioning; over_interp in {1, 1.25, 1.5}. '
          'Convergence clause: res < tol within the budget for all 8 solvers, as the property states it; for Richardson the same configuration is additionally run by rank 0 alone (MPI_COMM_SELF) and the outcome is attached to the failure detail (single_rank_reference), because plain aggregation with over-interpolation is not a convergent stationary iteration on every G2 graph even on one rank. '
          'In addition every solve job on > 1 ranks runs 12 (quick) / 48 (thorough) thin-slab cases: a 2-D G1 grid (24-48 points per line, contrast 1 in 60 %) cut into slabs of one or two grid lines per rank so that every row on every rank has an off-process coupling; every third of them with the Chebyshev smoother, the others cycling through the remaining relaxations and CG/BiCGStab/GMRES/IDR(s)/FGMRES/LGMRES/BiCGStab(L)/Richardson. '
+         'pmis also checks the distributed smoothed prolongation against its definition (I - 2/3 D_F^-1 A_F) P_tent evaluated on the assembled global matrix (weak entries lumped wherever their column lives; block size 1), every fourth pmis case being an anisotropic 2-D grid (anisotropy 0.01-0.15) cut across its weak direction; every third sdd / bp case is a structurally non-symmetric convection-diffusion problem (pure upwind convection across the cuts, or vf::convdiff with deleted partners): no convergence clause there, a Krylov breakdown is not counted, the truthful-residual and rank-consistency clauses stay. '
          'pmis/direct/block/sdd/bp: seeded cases as described in the harness headers. A solve case is non-trivial when the hierarchy has >= 2 levels and the solve returned; a pmis case when it has a non-isolated unknown; distinct = distinct (sub-check, descriptor) hash.',
     # oracle history: (1) 'non-finite:*' as an unconditional failure was replaced by "reported and true residual must be non-finite together" plus the
     # convergence clause (a diverging Richardson iteration overflows; that is truthful); (2) a differential convergence clause for Richardson (only when the
     # single-rank run converges) was tried and withdrawn: the property states convergence for every combination, so the clause is absolute and the single-rank
     # outcome is reported in the failure detail; (3) over_interp = 1.75 / 2 removed from the generator (the coarse correction of a stationary iteration overshoots).
     min_nontrivial=dict(quick=400, thorough=1500),
-    require_obs=dict(quick=['solves', 'thin_slab_chebyshev_solves', 'solves_with_empty_ranks', 'solves_with_repartition', 'galerkin_entries_checked', 'partition_levels_checked', 'nullspace_entries_checked', 'direct_solves', 'block_solves', 'sdd_solves', 'bp_solves'],
-                     thorough=['solves', 'thin_slab_chebyshev_solves', 'solves_with_empty_ranks', 'solves_with_repartition', 'galerkin_entries_checked', 'partition_levels_checked', 'nullspace_entries_checked', 'direct_solves', 'block_solves', 'sdd_solves', 'bp_solves']),
+    require_obs=dict(quick=['solves', 'thin_slab_chebyshev_solves', 'solves_with_empty_ranks', 'solves_with_repartition', 'galerkin_entries_checked', 'partition_levels_checked', 'nullspace_entries_checked', 'direct_solves', 'smoothed_prolongation_rows_with_weak_entries', 'sdd_nonsym_solves', 'block_solves', 'sdd_solves', 'bp_solves'],
+                     thorough=['solves', 'thin_slab_chebyshev_solves', 'solves_with_empty_ranks', 'solves_with_repartition', 'galerkin_entries_checked', 'partition_levels_checked', 'nullspace_entries_checked', 'direct_solves', 'smoothed_prolongation_rows_with_weak_entries', 'sdd_nonsym_solves', 'block_solves', 'sdd_solves', 'bp_solves']),
     assumptions=COMMON_ASSUME + ['Open MPI 4.1.4 on one node, oversubscribed; message arrival orders are those of this runtime diversified by rank-seeded delays before every ghost exchange',
                                   'the convergence clause is evaluated on the generator sub-families stated in the rule (tol 1e-8 within 300 Krylov / 1000 Richardson iterations)',
                                   'ParMETIS, PT-SCOTCH and PaStiX are not installed: only partition::merge, skyline_lu and eigen_splu are exercised; rank counts above 8 are not explored'],
